@@ -358,6 +358,7 @@ func earlyCall(sc *h1.Scenario, rep *h1.Replica) bool {
 
 func init() {
 	chk.Register("C07", func(c *chk.Ctx) {
+		k8sCycles(c, "C07")
 		bound := 1
 		if c.Thorough() {
 			bound = 1
